@@ -149,8 +149,10 @@ def isog2(E, Kpt, pts):
 def chain(E, Kpt, n, pts):
     """2^n-isogeny with kernel <Kpt> (Kpt of exact order 2^n), balanced recursion; returns (E', images of pts, image of Kpt)"""
     # iterative version of the recursion with an explicit stack of (point, remaining order exponent)
-    stack = [(Kpt, n)]
     pts = list(pts)
+    if n <= 0:
+        return E, pts
+    stack = [(Kpt, n)]
     while stack:
         P, e = stack[-1]
         if e == 1:
